@@ -82,6 +82,17 @@ func mkInt(i int) int {
 	return i*7919 + 13
 }
 
+// mkAnyKey: interface-kinded key type; the dynamic types are mixed
+func mkAnyKey(i int) any {
+	switch i % 3 {
+	case 0:
+		return mkInt(i)
+	case 1:
+		return mkString(i)
+	}
+	return mkSkey(i)
+}
+
 func mkSkey(i int) skey { return skey{A: int8(i), B: int64(i) * 1000003, C: fmt.Sprintf("s%d", i/3)} }
 
 // ---------------------------------------------------------------------------
@@ -303,6 +314,12 @@ func newMap(sp mapSpec) mapAPI {
 		return newMapOfAd[skey, val](sp, mkSkey, inVal, outVal, val{})
 	case "MapOf[int,*payload]":
 		return newMapOfAd[int, *payload](sp, mkInt, inPayload, outPayload, nil)
+	case "MapOf[string,*payload]":
+		return newMapOfAd[string, *payload](sp, mkString, inPayload, outPayload, nil)
+	case "MapOf[skey,*payload]":
+		return newMapOfAd[skey, *payload](sp, mkSkey, inPayload, outPayload, nil)
+	case "MapOf[any,*payload]":
+		return newMapOfAd[any, *payload](sp, mkAnyKey, inPayload, outPayload, nil)
 	}
 	panic("unknown map flavor " + sp.Flavor)
 }
